@@ -6,6 +6,10 @@ CFG = dict(
     stages=[
         seq("tsan", "tsan", "c08_tsched.c", 1600, 60000, wrap=True, per_proc_timeout=1800, nprocs=16),
         seq("asanh", "asanh", "c08_tsched.c", 1600, 60000, wrap=True, leak=True, per_proc_timeout=1800, nprocs=16),
+        # the shipped optimisation level (-O2 -DNDEBUG: AWS_ASSERT and the library's pre/post-conditions compile to nothing):
+        # under TSan, and uninstrumented at full speed
+        seq("tsanrel", "tsanrel", "c08_tsched.c", 1600, 60000, wrap=True, per_proc_timeout=1800, nprocs=16),
+        seq("rel", "rel", "c08_tsched.c", 1600, 60000, per_proc_timeout=1800, nprocs=16),
     ],
     rule=("case = one scenario: a real aws_thread_scheduler, 1-3 client threads running PRNG-generated scripts (schedule "
           "now / near future / >1h future / past, cancel of own earlier tasks, acquire+release pairs, pauses), task "
